@@ -55,3 +55,11 @@ From Inj Require Import SrcTieLife.
 Theorem C05_source_unwinding_shape : src_verifier_silent_when_unwinding && src_lock_dropped_last && src_lifo = true.
 Proof. exact src_unwinding_shape. Qed.
 Print Assumptions C05_source_unwinding_shape.
+
+(* the library's process-wide state, as found in the current source, is what the model has: the guard, and one call counter per fake!
+   call site; no pool, table, cache or remembered address survives an injector (generated constants, tools/const_translate.py) *)
+From Inj Require SrcTieLife.
+Theorem C05_library_state_is_what_the_model_has :
+  (SrcTieLife.src_only_guard_static && SrcTieLife.src_macro_statics_are_counters)%bool = true.
+Proof. exact SrcTieLife.src_state_shape. Qed.
+Print Assumptions C05_library_state_is_what_the_model_has.
